@@ -27,6 +27,9 @@ type c10Cfg struct {
 	Trans   string `json:"trans"`   // none | id | id-proj | custom | custom-err | custom-emptyrid
 	Default bool   `json:"default"` // Default value set
 	Store   string `json:"store"`   // mock | badger
+	// Nest: the handler sits on a Mux mounted two levels deep (mounts made top-down),
+	// so the resource id is svc.lib.r.<id>
+	Nest bool `json:"nest,omitempty"`
 }
 
 type c10Params struct {
@@ -51,9 +54,9 @@ func init() {
 		Parallel: 8,
 		Batches: func(seed int64, tier core.Tier) []core.Batch {
 			var bs []core.Batch
-			pairCfgs := []c10Cfg{{"collection", "none", false, "mock"}, {"collection", "id", false, "mock"}}
+			pairCfgs := []c10Cfg{{Type: "collection", Trans: "none", Store: "mock"}, {Type: "collection", Trans: "id", Store: "mock"}}
 			if tier == core.Thorough {
-				pairCfgs = append(pairCfgs, c10Cfg{"collection", "id", true, "mock"}, c10Cfg{"collection", "custom", false, "mock"}, c10Cfg{"collection", "none", false, "badger"})
+				pairCfgs = append(pairCfgs, c10Cfg{Type: "collection", Trans: "id", Default: true, Store: "mock"}, c10Cfg{Type: "collection", Trans: "custom", Store: "mock"}, c10Cfg{Type: "collection", Trans: "none", Store: "badger"})
 			}
 			for i, cf := range pairCfgs {
 				sh := 4
@@ -70,7 +73,7 @@ func init() {
 								i++
 								continue
 							}
-							cf := c10Cfg{typ, tr, def, st}
+							cf := c10Cfg{Type: typ, Trans: tr, Default: def, Store: st, Nest: i%4 == 1}
 							bs = append(bs, core.Batch{Name: fmt.Sprintf("random-%d", i), TimeoutS: 600, Params: core.Params(c10Params{Kind: "random", Cfg: cf, N: tierPick(tier, 400, 6000)})})
 							bs = append(bs, core.Batch{Name: fmt.Sprintf("history-%d", i), TimeoutS: 600, Params: core.Params(c10Params{Kind: "history", Cfg: cf, N: tierPick(tier, 20, 250)})})
 							i++
@@ -170,11 +173,19 @@ func newC10Env(c *core.Ctx, cfg c10Cfg) (*c10Env, error) {
 	}
 	h := store.Handler{Store: e.st, Transformer: tr, Default: e.def}
 	e.rig = newRig("svc", func(s *res.Service) {
-		if cfg.Type == "model" {
-			s.Handle("r.$id", res.Model, h)
-		} else {
-			s.Handle("r.$id", res.Collection, h)
+		typ := res.Model
+		if cfg.Type != "model" {
+			typ = res.Collection
 		}
+		if cfg.Nest {
+			lib := res.NewMux("")
+			s.Mount("lib", lib)
+			books := res.NewMux("")
+			lib.Mount("r", books)
+			books.Handle("$id", typ, h)
+			return
+		}
+		s.Handle("r.$id", typ, h)
 	})
 	e.rig.C.NoGoID = true
 	if err := e.rig.start(); err != nil {
@@ -186,6 +197,9 @@ func newC10Env(c *core.Ctx, cfg c10Cfg) (*c10Env, error) {
 // storeID / rid of a logical name.
 func (e *c10Env) ids(name string) (storeID, rid string) {
 	rid = "svc.r." + name
+	if e.cfg.Nest {
+		rid = "svc.lib.r." + name
+	}
 	if e.cfg.Trans == "none" {
 		return rid, rid
 	}
